@@ -301,6 +301,12 @@ def check(prop: str, tier: str, batch_seed: int, repo: str, workers: int = 16,
         print("[verif] HARNESS ERROR: wall-time limit hit in minimisation", flush=True)
         pools.shutdown(kill=True)
         return EXIT_HARNESS
+    except Exception as e:  # noqa: BLE001 - an exception of the machinery is never a verdict
+        import traceback
+        traceback.print_exc()
+        print(f"[verif] HARNESS ERROR: {type(e).__name__}: {e}", flush=True)
+        pools.shutdown(kill=True)
+        return EXIT_HARNESS
     pools.shutdown()
     wall = time.time() - t0
     if evidence:
